@@ -62,7 +62,7 @@ def register(reg, prog):
         ev = lambda t: ctx.ex.truth(ctx.st, ctx.ev(t))
         return z3.And(z3.Not(ev('has_res(self, %s)' % U)), ev('forall(k, 1, len(%s), not has_sub(self, %s[:k]))' % (U, U)))
 
-    reg.contract(SITE + '._find_child_and_pathstripped_message', params={'request': MSG}, result=Tuple(RES, MSG), properties=P,
+    reg.contract(SITE + '._find_child_and_pathstripped_message', params={'request': MSG}, result=Tuple(RES, MSG), properties=P + ['C09'],   # C09: unknown paths give 4.04
                  requires=['request.code is not None'],
                  raises={'KeyError': MAY}, only_raises=True,
                  raises_post={'KeyError': {'only-when-nothing-matches': find_raise,
